@@ -123,13 +123,16 @@ class MCMC(Identifiable, Runnable):
 
             operator.tune(acceptance_prob, sample=self._epoch, accepted=accepted)
 
+            # the counter is advanced first: a checkpoint stores the iteration
+            # a restarted run has to begin with, not the one just completed
+            completed = self._epoch
+            self._epoch += 1
+
             if (
                 self.checkpoint is not None
-                and self._epoch % self.checkpoint_frequency == 0
+                and completed % self.checkpoint_frequency == 0
             ):
                 self.save_full_state()
-
-            self._epoch += 1
 
         for logger in self.loggers:
             logger.close()
